@@ -110,7 +110,8 @@ class Ref:
             return _num(interp(ev(a[1], self), self.points(a[2], k)))
         if kind == "step":
             h, ts = a[1], a[2]
-            self.cond(self.time() - ts)
+            if self.time() != ts:
+                self.cond(self.time() - ts)     # (a step time that IS a grid time is an exact tie, not a near miss: the step has not happened yet there)
             return h if self.time() > ts else 0.0
         if kind == "pulse":
             vol, first, interval = a[1], a[2], a[3]
